@@ -26,19 +26,19 @@ pub struct Entry {
 }
 
 // ---------- deterministic data (same generators as the C20 registry) ----------
-struct Lcg(u64);
+pub(crate) struct Lcg(pub u64);
 impl Lcg {
-    fn next(&mut self) -> f64 {
+    pub(crate) fn next(&mut self) -> f64 {
         self.0 = self.0.wrapping_mul(6364136223846793005).wrapping_add(1442695040888963407);
         ((self.0 >> 11) as f64) / ((1u64 << 53) as f64)
     }
-    fn normalish(&mut self) -> f64 {
+    pub(crate) fn normalish(&mut self) -> f64 {
         (self.next() + self.next() + self.next() + self.next() - 2.0) * 1.2
     }
 }
 
 /// n rows, p columns, k blobs (row i belongs to blob i % k)
-fn blobs(n: usize, p: usize, k: usize, seed: u64) -> (Array2<f64>, Array1<usize>) {
+pub(crate) fn blobs(n: usize, p: usize, k: usize, seed: u64) -> (Array2<f64>, Array1<usize>) {
     let mut g = Lcg(seed);
     let mut x = Array2::zeros((n, p));
     let mut y = Array1::zeros(n);
@@ -53,7 +53,7 @@ fn blobs(n: usize, p: usize, k: usize, seed: u64) -> (Array2<f64>, Array1<usize>
     (x, y)
 }
 
-fn regression(n: usize, p: usize, t: usize, seed: u64) -> (Array2<f64>, Array2<f64>) {
+pub(crate) fn regression(n: usize, p: usize, t: usize, seed: u64) -> (Array2<f64>, Array2<f64>) {
     let mut g = Lcg(seed);
     let mut x = Array2::zeros((n, p));
     let mut y = Array2::zeros((n, t));
@@ -72,21 +72,21 @@ fn regression(n: usize, p: usize, t: usize, seed: u64) -> (Array2<f64>, Array2<f
     (x, y)
 }
 
-fn rng(seed: u64) -> Xoshiro256Plus {
+pub(crate) fn rng(seed: u64) -> Xoshiro256Plus {
     Xoshiro256Plus::seed_from_u64(seed)
 }
 
-fn e<T: std::fmt::Debug>(x: T) -> String {
+pub(crate) fn e<T: std::fmt::Debug>(x: T) -> String {
     format!("{:?}", x)
 }
 
-fn extreme(p: usize) -> Vec<f64> {
+pub(crate) fn extreme(p: usize) -> Vec<f64> {
     (0..p).map(|j| (if j % 2 == 0 { 1e3 } else { -1e3 }) * (1.0 + j as f64 * 0.25)).collect()
 }
 
 /// Query pool of 6 rows: two training rows, a duplicate of the first, an off-data row (midpoint of
 /// two training rows of different blobs / far apart), an extreme row, a third training row.
-fn pool_from(x: &Array2<f64>, extreme_row: Vec<f64>) -> Vec<Vec<f64>> {
+pub(crate) fn pool_from(x: &Array2<f64>, extreme_row: Vec<f64>) -> Vec<Vec<f64>> {
     let r = |i: usize| x.row(i).to_vec();
     let mid: Vec<f64> = r(0).iter().zip(r(1).iter()).map(|(a, b)| 0.5 * (a + b)).collect();
     vec![r(0), r(1), r(0), mid, extreme_row, r(2)]
